@@ -182,6 +182,25 @@ fn forgeries(auth: &WMessage, n_players: usize, payloads: &[Vec<u8>]) -> Vec<(St
     out
 }
 
+/// The smallest rng seed whose k-th 16-bit draw is 0 while the earlier ones are not.
+fn seed_with_zero_draw(k: usize) -> u64 {
+    for seed in 1u64..50_000_000 {
+        ggrs::verif_hooks::reset(0, seed, 1);
+        let mut ok = true;
+        for i in 0..k {
+            let d: u16 = ggrs::verif_hooks::rand::random::<u16>();
+            if (d == 0) != (i + 1 == k) {
+                ok = false;
+                break;
+            }
+        }
+        if ok {
+            return seed;
+        }
+    }
+    panic!("no rng seed with a zero draw found");
+}
+
 type FieldChange = Box<dyn Fn(&mut WInput)>;
 
 fn field_damage(n_players: usize) -> Vec<(&'static str, FieldChange)> {
@@ -303,6 +322,19 @@ pub fn c08() -> i32 {
         s.checks = CK_CORE;
         bases.push((s, if t { (0..14).collect() } else { vec![0, 2, 5, 9, 11] }));
     }
+    // endpoints whose first draw for their magic number is 0 (the value the receiving side
+    // uses for "peer not known yet"): the draw has to be repeated, otherwise the peer's magic
+    // filter stays off for the whole session
+    for k in 1..=3usize {
+        let mut s = base_scn("c08-zero-magic-draw", "1+1", 2, 0, false, Pred::RepeatLast, Program::Changing, 1);
+        s.specs.push(SpecSpec::new(20, s.peers[0].addr));
+        s.rng_seed = seed_with_zero_draw(k);
+        s.name = format!("{} rng draw #{k} is 0 (seed {})", s.name, s.rng_seed);
+        s.horizon = 14;
+        s.probe = 30;
+        s.checks = CK_CORE;
+        bases.push((s, vec![1, 6]));
+    }
     // after a timeout disconnect and after shutdown
     {
         let mut s = base_scn("c08-after-disconnect", "1+1", 2, 0, false, Pred::RepeatLast, Program::Changing, 1);
@@ -322,6 +354,12 @@ pub fn c08() -> i32 {
         // authentic Input packets b -> a, the last one sent at or before the injection round
         let inputs: Vec<(i32, WMessage)> = sn.sniff.iter().filter(|p| p.1 == b && p.2 == a && matches!(p.3.body, WBody::Input(_))).map(|p| (p.0, p.3.clone())).collect();
         let b_magic = sn.sniff.iter().find(|p| p.1 == b && p.2 == a).map(|p| p.3.magic).unwrap_or(1);
+        if std::env::var("VERIF_DEBUG_MAGIC").is_ok() {
+            let mut ms: Vec<(u8, u8, u16)> = sn.sniff.iter().map(|p| (p.1, p.2, p.3.magic)).collect();
+            ms.sort_unstable();
+            ms.dedup();
+            eprintln!("MAGICS {} -> {ms:?}", base.name);
+        }
         states.push(json!({"base": base.name, "rounds": rounds, "authentic_inputs_sniffed": inputs.len()}));
         for &r in rounds {
             // the newest authentic input sent before round r (so that its frames may still be new
@@ -415,6 +453,36 @@ pub fn c08() -> i32 {
                             }
                         }
                     }
+                }
+            }
+            // another session's magic on packets that are otherwise shaped exactly like the
+            // link's own traffic (newest authentic input of that link with other values and further
+            // frames): towards the second peer and towards the spectator (the grid above only
+            // attacks the first peer)
+            for (from, to) in [(a, b), (a, 20u8), (b, a)] {
+                if to == 20 && base.specs.is_empty() {
+                    continue;
+                }
+                let link_inputs: Vec<&(i32, crate::types::Addr, crate::types::Addr, WMessage)> = sn.sniff.iter().filter(|p| p.1 == from && p.2 == to && matches!(p.3.body, WBody::Input(_)) && p.0 <= r).collect();
+                let Some(p) = link_inputs.last() else { continue };
+                let WBody::Input(inp) = &p.3.body else { continue };
+                let mut i = inp.clone();
+                i.bytes = reencode(inp, |fr: &mut Vec<Vec<u8>>| {
+                    for x in fr.iter_mut() {
+                        for b in x.iter_mut() {
+                            *b ^= 0x2A;
+                        }
+                    }
+                    let l = fr.last().cloned().unwrap_or_default();
+                    for _ in 0..3 {
+                        fr.push(l.clone());
+                    }
+                });
+                for before in [true, false] {
+                    let mut s = base.clone();
+                    s.inject.push(InjectSpec { round: r, to, from, msg: WMessage { magic: p.3.magic ^ 0x2468, body: WBody::Input(i.clone()) }, before });
+                    s.name = format!("{} round={r} before={before} forged foreign-magic authentic-shape-other-values {from}->{to}", base.name);
+                    scns.push(s);
                 }
             }
             // to the spectator from its host's address
